@@ -101,7 +101,18 @@ class LibTable:
         self.put("bd", [tx(s)], "!" if b is None else hx(b)); return b
 
     def mostly_bin(self, b):
-        r = strutils.is_mostly_bin(b); self.put("mb", [hx(b)], "01" if r else "00"); return r
+        # the model computes is_mostly_bin itself (Model/C41_Lib.lean) and only asks whether the cut prefix is valid UTF-8
+        s = b
+        if len(s) > 100:
+            for cut in range(100, min(104, len(s))):
+                if (s[cut] >> 6) != 0b10:
+                    s = s[:cut]; break
+            else:
+                s = s[:100]
+        try: s.decode(); ok = True
+        except ValueError: ok = False
+        self.put("u8", [hx(s)], "01" if ok else "00")
+        return strutils.is_mostly_bin(b)
 
     def ce_dec(self, ce, raw):
         reset_cache()
@@ -119,8 +130,29 @@ class LibTable:
         except ValueError: r = None
         self.put("ce", [tx(ce), hx(b)], "!" if r is None else hx(r)); return r
 
+    def str_prims(self, ct):
+        """str.lower / str.strip answers for the pieces parse_content_type looks at (the driver computes ASCII ones itself)"""
+        parts = ct.split(";", 1)
+        ts = parts[0].split("/", 1)
+        for t in ts: self.put("lo", [tx(t)], tx(t.lower()))
+        if len(parts) == 2:
+            for i in parts[1].split(";"):
+                for x in i.split("=", 1): self.put("st", [tx(x)], tx(x.strip()))
+
     def infer(self, ct, content):
-        r = infer_content_encoding(ct, content); self.put("in", [tx(ct), hx(content)], tx(r)); return r
+        # the model computes infer_content_encoding itself and only asks for the three regex searches and str primitives
+        import re
+        self.str_prims(ct)
+        for tag, m in (("rm", re.search(rb"""<meta[^>]+charset=['"]?([^'">]+)""", content, re.IGNORECASE)),
+                       ("rx", re.search(rb"""<\?xml[^\?>]+encoding=['"]([^'"\?>]+)""", content, re.IGNORECASE)),
+                       ("rc", re.match(rb"""@charset "([^"]+)";""", content, re.IGNORECASE))):
+            self.put(tag, [hx(content)], "!" if m is None else hx(m.group(1)))
+        r = infer_content_encoding(ct, content)
+        self.put("lo", [tx(r)], tx(r.lower()))
+        for m_ in (re.search(rb"""<meta[^>]+charset=['"]?([^'">]+)""", content, re.IGNORECASE),):
+            if m_:
+                g = m_.group(1).decode("ascii", "ignore"); self.put("lo", [tx(g)], tx(g.lower()))
+        return r
 
     def cs_dec(self, cs, b):
         try:
@@ -140,7 +172,7 @@ class LibTable:
         p = parse_content_type(ct) or ("text", "plain", {})
         p[2]["charset"] = "utf-8"
         r = assemble_content_type(*p).encode("utf-8", "surrogateescape")
-        self.put("cu", [tx(ct)], hx(r)); return r
+        self.str_prims(ct); self.senc(assemble_content_type(*p)); return r
 
     def url_hostport(self, u):
         try: r = http.Request.make("GET", u, "", [(b"Host", b"x")]).headers["Host"]
@@ -347,9 +379,9 @@ def ref_predict(f):
     u = rq.pretty_url
     eurl = f"https://{u}/" if m == "CONNECT" else u
     hosts = [v for n, v in rh if n.lower() == b"host"]
-    if not eurl.isascii(): urlfail = "UnicodeEncodeError"
-    elif len(hosts) > 1 and m != "CONNECT" and not (rq.is_http2 or rq.is_http3) or " " in eurl: urlfail = "ValueError"
-    else: urlfail = None
+    urlfail = []          # exception types url.parse may raise on the exported URL
+    if (len(hosts) > 1 and m != "CONNECT" and not (rq.is_http2 or rq.is_http3)) or " " in eurl: urlfail.append("ValueError")
+    if not eurl.isascii(): urlfail.append("UnicodeEncodeError")
     ru, rhost = ref_url_risky(f)
     return {"pred_rbody": None if b is None else hx(b), "ct_rewrite": ct_rewrite, "pred_sbody": None if sb is None else hx(sb),
             "urlfail": urlfail, "risky_url": ru, "risky_host": rhost, "connect": m == "CONNECT", "eurl": eurl}
@@ -422,7 +454,23 @@ def bits_str(g):
 def table_for(f):
     lt = LibTable()
     guard_bits(f, lt)
+    rq, rs = f.request, f.response
+    lt.ct_utf8(lt.hget(list(rq.headers.fields), b"content-type") or "")
+    lt.infer(lt.hget(list(rs.headers.fields), b"content-type") or "", lt.get_content(list(rs.headers.fields), rs.raw_content))
+    lt.mostly_bin(lt.get_content(list(rs.headers.fields), rs.raw_content))
     return lt.walk(f)
+
+
+def predictions(f):
+    """the real values of the helpers the model now computes itself: is_mostly_bin(response content),
+    infer_content_encoding(response ct, content), infer_content_encoding(request ct), set_text's rewritten Content-Type"""
+    rq, rs = f.request, f.response
+    c = rs.get_content(strict=False)
+    rct, sct = rq.headers.get("content-type", ""), rs.headers.get("content-type", "")
+    p = parse_content_type(rct) or ("text", "plain", {})
+    p[2]["charset"] = "utf-8"
+    return " ".join(["1" if strutils.is_mostly_bin(c) else "0", tx(infer_content_encoding(sct, c)), tx(infer_content_encoding(rct)),
+                     hx(assemble_content_type(*p).encode("utf-8", "surrogateescape"))])
 
 
 def flow_line(f):
@@ -477,26 +525,32 @@ FINDINGS = [
 class Check(PropertyCheck):
     prop = "C41"
     design_ref = "§5 C41"
-    level_text = ("Lean theorem import_export_preserves_partial: for EVERY list of flows and every library obeying the "
-                  "stated codec laws, the model of SaveHar.flow_entry/make_har -> json -> har.request_to_flow (with the "
-                  "Message.get_content/get_text/set_content/set_text/decode and Headers operations it calls) succeeds and "
-                  "returns the flows in order with the same method, URL, request fields apart from Content-Length, request "
-                  "body (POST/PUT/PATCH), status, response fields and decoded response body, and the same HTTP version, "
-                  "provided each flow passes a decidable guard with one conjunct per recorded defect class (F-C41a..h); "
-                  "the unguarded statement is refuted in Lean on concrete flows (import_export_preserves_counterexample*). "
-                  "The model is tied to the code per flow: exported HAR entry fields, the re-imported flow field by field "
-                  "(exact header spelling/order, raw bodies, versions, import failure) and the nine guard bits must all be equal.")
+    level_text = ("Lean theorems import_export_preserves_partial / _guarded / _transcribed: for EVERY list of flows and every "
+                  "set of library primitives obeying the stated codec laws, the model of SaveHar.flow_entry/make_har -> json -> "
+                  "har.request_to_flow - including the Message.get_content/get_text/set_content/set_text/decode and Headers "
+                  "operations it calls AND transcriptions of strutils.is_mostly_bin, infer_content_encoding, parse_content_type/"
+                  "assemble_content_type and set_text's Content-Type rewrite - succeeds and returns the flows in order with the "
+                  "same method, URL, request fields apart from Content-Length, request body (POST/PUT/PATCH), status, response "
+                  "fields, decoded response body and HTTP version, provided each flow passes a decidable guard with one conjunct "
+                  "per recorded defect class (F-C41a..h); the unguarded statement is refuted in Lean on concrete flows "
+                  "(import_export_preserves_counterexample*). infer_header_charset / infer_no_sniff / gRespText_of_roundtrip / "
+                  "gReqText_of_roundtrip / mostlyBin_printable reduce the text conjuncts of the guard to input properties plus a "
+                  "codec round trip on the body. Tie per flow: exported HAR entry fields, the re-imported flow field by field "
+                  "(exact header spelling/order, raw bodies, versions, import failure), the nine guard bits, and the model's own "
+                  "predictions of is_mostly_bin / infer_content_encoding / the rewritten Content-Type must equal the real code.")
     level_note = ("partial by necessity: the code violates the full statement in 8 classes (known/C41.json), so the universal "
-                  "theorem carries the guard guardButVer/gVer. Library functions are parameters: utf-8/surrogateescape, "
-                  "str.upper, base64, content codings, charset codecs, infer_content_encoding, content-type rewriting, URL "
-                  "parsing/printing (url.parse, hostport, pretty_url) and JSON; assumed laws: senc(sdec b)=b, ASCII fixed, "
-                  "method upper/encode round trip, b64decode(b64encode b)=b, json.loads(json.dumps x)=x. Their answers are "
-                  "passed per case from the real functions (driver reports lib-miss if it needs an answer it was not given). "
+                  "theorem carries the guard guardButVer/gVer. Still parameters (Prim): utf-8/surrogateescape, str.upper/lower/"
+                  "strip, UTF-8 validity, base64, content codings, charset codecs, the three re.search calls of "
+                  "infer_content_encoding, the URL library (url.parse / hostport / pretty_url over urllib) and JSON; assumed laws: "
+                  "senc(sdec b)=b, ASCII fixed, method upper/encode round trip, b64decode(b64encode b)=b, json.loads(json.dumps x)=x. "
+                  "Their answers are passed per case from the real functions (driver reports lib-miss if it needs an answer it was "
+                  "not given; ASCII cases of sdec/senc/lower/strip/utf8 are computed by the driver). "
                   "Outside the model: flows without response, missing (None) bodies, websocket messages, cookies/query/timing "
                   "fields of the HAR entry, trailers, charset names that denote byte-to-byte codecs; HTTP/1.0 is generated but "
                   "its version is outside the statement's quantifier and not demanded. Which oracle failures count as instances of a "
-                  "recorded finding is decided from properties of the input only: charset questions by the harness' own reference "
-                  "(ref_infer + CPython codecs), URL/Host classes by ref_url_risky - not from the answers of the library under test.")
+                  "recorded finding is decided by known(): the observed deviation must EQUAL the deviation the finding predicts for "
+                  "this input, computed by the harness' own reference (ref_predict: ref_infer + CPython codecs, ref_url_risky), not "
+                  "from the answers of the library under test; known_selftest() checks positives and near misses on every run.")
     technique = "Lean 4 proof (field mapping model, codecs as parameters with laws) + per-flow differential correspondence with the real export/import"
     rule = ("small-scope sweep first (methods x versions x body kinds x Content-Length/Content-Encoding/Host variants), then "
             "random flows: methods incl. lower-case/CONNECT/extension, HTTP/1.1 / 2.0 / 3 (/1.0), header sets with duplicates, "
@@ -514,10 +568,12 @@ class Check(PropertyCheck):
                     "mitmproxy.http:Message.get_content", "mitmproxy.http:Message.set_content",
                     "mitmproxy.http:Message.get_text", "mitmproxy.http:Message.set_text", "mitmproxy.http:Message.decode",
                     "mitmproxy.http:Request.make", "mitmproxy.http:Request._update_host_and_authority",
-                    "mitmproxy.coretypes.multidict:_MultiDict.set_all"]
+                    "mitmproxy.coretypes.multidict:_MultiDict.set_all", "mitmproxy.utils.strutils:is_mostly_bin",
+                    "mitmproxy.net.http.headers:infer_content_encoding", "mitmproxy.net.http.headers:parse_content_type",
+                    "mitmproxy.net.http.headers:assemble_content_type"]
     trusted_base = ["CPython codecs (utf-8/surrogateescape, charset codecs), base64, json, zlib/brotli/zstd, urllib as the "
                     "library parameters of the model (answers taken from the real functions per case; laws assumed)",
-                    "mitmproxy.net.http.url / headers.infer_content_encoding / strutils.is_mostly_bin treated as library parameters"]
+                    "mitmproxy.net.http.url (parse, hostport, pretty_url) treated as a library parameter"]
 
     def impl(self, case):
         flows = [build_flow(fc) for fc in case["flows"]]
@@ -545,7 +601,8 @@ class Check(PropertyCheck):
             reset_cache()
             try: i = raw_view(request_to_flow(e))
             except Exception: i = "fail"
-            tie.append(f"E {entry_view(e)} I {i} G {bits_str(guards[len(tie)])}")
+            fl = flows[len(tie)]
+            tie.append(f"E {entry_view(e)} I {i} G {bits_str(guards[len(tie)])} P {predictions(fl)}")
         try:
             back = list(FlowReader(io.BytesIO(data)).stream())
         except exceptions.FlowReadException as e:
@@ -797,7 +854,7 @@ class Check(PropertyCheck):
         tag = failure.split(":", 1)[0]
         if tag.startswith("import-failed"):
             # F-C41c: url.parse raises on the exported URL of some flow, with the predicted exception
-            return "F-C41c" if any(r["urlfail"] is not None and r["urlfail"] == obs.get("err") for r in obs["refs"]) else None
+            return "F-C41c" if any(obs.get("err") in r["urlfail"] for r in obs["refs"]) else None
         if "[" not in tag or obs["stage"] != "ok": return None
         field, idx = tag[:-1].split("["); i = int(idx)
         x, y, r = obs["orig"][i], obs["back"][i], obs["refs"][i]
@@ -865,6 +922,103 @@ class Check(PropertyCheck):
             if len(c["flows"]) == len(case["flows"]) and any(a[k] != b[k] for a, b in zip(c["flows"], case["flows"]) for k in keep):
                 continue
             yield c
+
+    # ------------------------------------------------------------------ classifier self-test (notes/known_audit.txt)
+    def setup(self, tier):
+        self.known_selftest()
+
+    def known_selftest(self):
+        """per finding: the positive witness, (a) the same input with a DIFFERENT deviation, (b) an input just outside
+        the class showing the same kind of deviation; known() must answer id / None / None.  Observations of the
+        near misses are the real ones with the imported flow edited by hand."""
+        import copy, gzip as _gz
+        H = _h
+
+        def base(**kw):
+            fc = {"method_hex": hx(b"GET"), "scheme": "http", "host": "example.com", "port": 80, "path_hex": hx(b"/"),
+                  "authority_hex": "-", "ver": "HTTP/1.1", "rh": H([(b"Host", b"example.com"), (b"X-A", b"1")]), "rbody_hex": "-",
+                  "status": 200, "sver": "HTTP/1.1", "sh": H([(b"Server", b"s")]), "sbody_hex": "-"}
+            fc.update(kw); return {"flows": [fc]}
+
+        def edited(case, **edit):
+            o = copy.deepcopy(self.impl(case))
+            if "stage" in edit:
+                o["stage"], o["err"] = edit["stage"], edit["err"]; return o
+            for k, v in edit.items(): o["back"][0][k] = v
+            return o
+
+        def drop(hs, name):
+            return [p for p in hs if unhx(p[0]).lower() != name]
+
+        gz = _gz.compress(b"hello", mtime=0)
+        html = b'<html><head><meta charset="latin-1"></head><body>caf\xe9</body></html>'
+        h2 = base(ver="HTTP/2.0", sver="HTTP/2.0", authority_hex=hx(b"example.com"), rh=H([(b"X-A", b"1")]))
+        h3 = base(ver="HTTP/3", sver="HTTP/3", authority_hex=hx(b"example.com"), rh=H([(b"X-A", b"1")]))
+        con = base(method_hex=hx(b"CONNECT"), scheme="https", port=443, path_hex="-", authority_hex=hx(b"example.com:443"), rh=[])
+        nonascii = base(path_hex=hx(b"/\xc3\xa9"))
+        upper = base(rh=H([(b"Host", b"EXAMPLE.com"), (b"X-A", b"1")]))
+        host80 = base(rh=H([(b"Host", b"example.com:80"), (b"X-A", b"1")]))
+        gzr = base(sh=H([(b"Server", b"s"), (b"Content-Encoding", b"gzip"), (b"Content-Length", str(len(gz)).encode())]), sbody_hex=hx(gz))
+        okr = base(sh=H([(b"Server", b"s"), (b"Content-Length", b"5")]), sbody_hex=hx(b"hello"))
+        binp = base(method_hex=hx(b"POST"), rh=H([(b"Host", b"example.com"), (b"Content-Length", b"4")]), rbody_hex=hx(b"\xff\xfe\x00\x01"))
+        okp = base(method_hex=hx(b"POST"), rh=H([(b"Host", b"example.com"), (b"Content-Length", b"5")]), rbody_hex=hx(b"hello"))
+        nocl = base(sbody_hex=hx(b"hello"))
+        te = base(sh=H([(b"Server", b"s"), (b"Transfer-Encoding", b"chunked")]), sbody_hex=hx(b"hello"))
+        meta = base(sh=H([(b"Content-Type", b"text/html"), (b"Content-Length", str(len(html)).encode())]), sbody_hex=hx(html))
+        plain = base()
+        O = self.impl
+        T = [
+            # F-C41a
+            (h2, O(h2), "version[0]", "F-C41a"),
+            (h2, edited(h2, rh=[]), "request-headers[0]", None),                       # same input, other clause
+            (h2, edited(h2, ver="HTTP/1.0"), "version[0]", None),                      # same input, other version outcome
+            (h3, edited(h3, ver="HTTP/1.1"), "version[0]", None),                      # HTTP/3 must survive
+            # F-C41b
+            (con, O(con), "url[0]", "F-C41b"),
+            (con, edited(con, url=hx(b"other.example:443")), "url[0]", None),
+            (plain, edited(plain, url="-"), "url[0]", None),
+            # F-C41c
+            (nonascii, O(nonascii), "import-failed", "F-C41c"),
+            (nonascii, edited(nonascii, stage="import-failed", err="TypeError"), "import-failed", None),
+            (plain, edited(plain, stage="import-failed", err="UnicodeEncodeError"), "import-failed", None),
+            (upper, O(upper), "url[0]", "F-C41c"),
+            (upper, edited(upper, url=hx(b"http://example.com/other")), "url[0]", None),
+            (plain, edited(plain, url=hx(b"http://example.com/x")), "url[0]", None),
+            # F-C41d
+            (host80, O(host80), "request-headers[0]", "F-C41d"),
+            (host80, edited(host80, rh=drop(O(host80)["back"][0]["rh"], b"x-a")), "request-headers[0]", None),
+            (host80, edited(host80, rh=H([(b"Host", b"evil.example"), (b"X-A", b"1")])), "request-headers[0]", None),
+            (plain, edited(plain, rh=H([(b"Host", b"example.org"), (b"X-A", b"1")])), "request-headers[0]", None),
+            # F-C41e
+            (gzr, O(gzr), "response-headers[0]", "F-C41e"),
+            (gzr, edited(gzr, sh=drop(O(gzr)["back"][0]["sh"], b"server")), "response-headers[0]", None),
+            (gzr, edited(gzr, sbody=hx(b"HELLO")), "response-body[0]", None),
+            (okr, edited(okr, sh=drop(O(okr)["back"][0]["sh"], b"server")), "response-headers[0]", None),
+            # F-C41f
+            (binp, O(binp), "request-body[0]", "F-C41f"),
+            (binp, O(binp), "request-headers[0]", "F-C41f"),
+            (binp, edited(binp, rbody=hx(b"abcd")), "request-body[0]", None),
+            (okp, edited(okp, rbody=hx(b"HELLO")), "request-body[0]", None),
+            (okp, edited(okp, rh=H([(b"Host", b"example.com"), (b"content-type", b"text/plain; charset=utf-8")])), "request-headers[0]", None),
+            # F-C41g
+            (nocl, O(nocl), "response-headers[0]", "F-C41g"),
+            (nocl, edited(nocl, sh=H([(b"Server", b"s"), (b"content-length", b"99")])), "response-headers[0]", None),
+            (te, edited(te, sh=H([(b"Server", b"s"), (b"Transfer-Encoding", b"chunked"), (b"content-length", b"5")])), "response-headers[0]", None),
+            (okr, edited(okr, sh=H([(b"Server", b"s"), (b"Content-Length", b"6")])), "response-headers[0]", None),
+            # F-C41h
+            (meta, O(meta), "response-body[0]", "F-C41h"),
+            (meta, O(meta), "response-headers[0]", "F-C41h"),
+            (meta, edited(meta, sbody=hx(b"garbage")), "response-body[0]", None),
+            (meta, edited(meta, sbody=hx(b"garbage")), "response-headers[0]", None),
+            (okr, edited(okr, sbody=hx(b"HELLO")), "response-body[0]", None),
+        ]
+        for n, (case, obs, tag, want) in enumerate(T):
+            got = self.known(case, obs, tag + ": selftest")
+            assert got == want, f"known_selftest #{n}: {tag} expected {want}, got {got}"
+        # every positive witness really is an oracle failure of that field on the real code
+        for case, obs, tag, want in T:
+            if want:
+                assert any(f.startswith(tag) for f in self.oracle(case, obs)), f"known_selftest: witness for {want} ({tag}) no longer fails"
 
     def neighbours(self, case, rng):
         for i, fc in enumerate(case["flows"]):
